@@ -20,13 +20,9 @@ P(fn) == [k |-> "predicate", b |-> 0, fn |-> fn, p |-> <<>>, sp |-> "lit"]
 ValSeqs == {<<P("non_empty")>>, <<P("sorted")>>, <<P("short")>>}
 CustomVals == {<<[k |-> "custom", b |-> 0, fn |-> "short", p |-> <<>>, sp |-> "lit"]>>}
 
-\* `Into` is left out for the generic twin: its expansion repeats the trait
-\* bounds in a type position (`From<Nt<T: Ord>>`) and does not compile; that
-\* is an acceptance matter (C08, see DESIGN.md findings), not a run-time one.
+\* (derive(Into) on the generic twin works since fix c0c4844)
 StdTraitsOf(ty) == <<"Debug", "Clone", "PartialEq", "Eq", "PartialOrd", "Ord", "Hash",
-               "AsRef", "Deref", "Borrow">> \o (IF ty = "Vec<T>" THEN <<>> ELSE <<"Into">>)
-               \o <<"Default", "IntoIterator", "Serialize", "Deserialize">>
-
+               "AsRef", "Deref", "Borrow", "Into", "Default", "IntoIterator", "Serialize", "Deserialize">>
 DeclC(conv, ty, san, vmode, val, dflt) ==
   [fam |-> "any", ty |-> ty, san |-> san, vmode |-> vmode, val |-> val,
    traits |-> StdTraitsOf(ty) \o (IF vmode = "none" /\ conv = "From" THEN <<"From">> ELSE <<"TryFrom">>),
